@@ -84,6 +84,9 @@ func continuation(name string, img []byte, rng *rand.Rand) *core.Trace {
 		}
 		e.Disk = simdisk.FromImage(name, img)
 		e.Disk.OnOp = e.OnDiskOp
+		// the image may be larger than the limit stored in it (a max-size update that shrank the
+		// limit leaves the file as large as it was): the extent bound is the size it already has
+		e.ExtentLimit = uint(len(img))
 		if err := e.Open(rec.model, rec.root); err != nil {
 			e.Emit(core.Event{"ev": "OpenFailed", "err": fenv.ErrKind(err)})
 			return
